@@ -48,6 +48,18 @@ def loop_forms(n):
                               "b": {"k": "sig", "t": "break"}}}},
          "b": rtgen.copy(tail)}
     out["loop/break_when_done"] = rtgen.assign_ids(t)
+    # a loop that suspends in its FIRST iteration (a header element) and only then runs its n non-yielding iterations:
+    # the inner one-shot loop `for reg1 < 1 { yield 7; reg1 = 1 }` is the `if first { Yield }` of a filter
+    for pn, p in (("while", None), ("for", post)):
+        header = {"k": "for", "c": {"id": 0, "acts": [], "e": ["lt", 1, 1]}, "p": None,
+                  "b": {"k": "bind", "v": ["const", 7], "id": 0, "acts": [["set", 1, 1]], "body": N}}
+        t = {"k": "combine", "a": {"k": "for", "c": cond(0), "p": p, "b": header}, "b": rtgen.copy(tail)}
+        out["%s/header_then_stretch" % pn] = rtgen.assign_ids(t)
+        # the same with the header yielded by the loop body directly and the stretch in a nested loop run
+        inner = {"k": "for", "c": cond(0), "p": None, "b": CONT}
+        t = {"k": "combine", "a": {"k": "for", "c": {"id": 0, "acts": [["add", 2, 1]], "e": ["lt", 2, 3]}, "p": p,
+                                    "b": {"k": "bind", "v": ["reg", 2], "id": 0, "acts": [], "body": inner}}, "b": rtgen.copy(tail)}
+        out["%s/yield_then_inner_stretch" % pn] = rtgen.assign_ids(t)
     return out
 
 
@@ -59,7 +71,7 @@ def check(rep, tier):
     counts = (1, 2, 10, 100, 700)
     for n in counts:
         for name, t in loop_forms(n).items():
-            cases.append({"terms": [t], "hist": [[0, "mn"], [0, "cur"], [0, "mn"]], "budget": 4000})
+            cases.append({"terms": [t], "hist": [[0, "mn"], [0, "cur"], [0, "mn"], [0, "mn"], [0, "mn"]], "budget": 4000})
             meta.append((name, n))
     for i in range(150 if tier == "quick" else 1500):
         cases.append(rtgen.make_case(rng, rng.choice([4, 8, 12]), ngens=1, histlen=6, budget=300, panics=False))
@@ -89,7 +101,7 @@ def check(rep, tier):
         big = 100000 if tier == "quick" else 1000000
         bc, bm = [], []
         for name, t in loop_forms(big).items():
-            bc.append({"terms": [t], "hist": [[0, "mn"]], "budget": 20 * big})
+            bc.append({"terms": [t], "hist": [[0, "mn"], [0, "mn"], [0, "mn"]], "budget": 20 * big})
             bm.append(name)
         br = rtcheck.run_go(exe, bc, timeout=1200)
         bigd = {}
